@@ -291,6 +291,17 @@ func GenRecs(t *rapid.T, s Schema, maxN int, distinctTS bool) []model.Rec {
 	tss := GenTimestamps(t, n, 40, distinctTS)
 	recs := make([]model.Rec, n)
 	for i := range recs {
+		// The previous record once more: the same timestamp, line and labels (a line logged
+		// twice within one clock tick is two records).
+		if i > 0 && !distinctTS && rapid.IntRange(0, 14).Draw(t, "repeat") == 0 {
+			prev := recs[i-1]
+			r := model.Rec{TS: prev.TS, Line: prev.Line, Doc: prev.Doc, Labels: map[string]string{}}
+			for k, v := range prev.Labels {
+				r.Labels[k] = v
+			}
+			recs[i] = r
+			continue
+		}
 		// A twin of the previous record: the same line, the same labels except that one of them
 		// is gone and another one, which the previous record lacks, is there with an empty
 		// value (as many labels, all shared ones equal).
